@@ -1423,7 +1423,7 @@ func (c *Ctx) c12HeadAndRefusal() {
 		n := core.CalleeName(call)
 		return strings.HasSuffix(n, "AccountCache).clear") || strings.HasSuffix(n, "SimpleLedger).Clear")
 	})
-	isAnchor := storesToField("SimpleLedger", "prevJnlHash")
+	isAnchor := c.throughHelpers(storesToField("SimpleLedger", "prevJnlHash"))
 	n := 0
 	for _, ret := range core.Returns(rs) {
 		if len(ret.Results) != 1 {
@@ -1454,13 +1454,11 @@ func (c *Ctx) c12HeadAndRefusal() {
 		return len(call.Common().Args) > 0 && strings.HasPrefix(storageKind(call.Common().Args[0]), "journal")
 	}
 	isPresenceDeep := isPresence
-	isMutation := func(in ssa.Instruction) bool {
-		if isPurge(in) {
-			return true
-		}
+	isBatchOp := c.throughHelpers(func(in ssa.Instruction) bool {
 		call, ok := in.(ssa.CallInstruction)
 		return ok && call.Common().IsInvoke() && (call.Common().Method.Name() == "NewBatch" || call.Common().Method.Name() == "Commit")
-	}
+	})
+	isMutation := func(in ssa.Instruction) bool { return isPurge(in) || isBatchOp(in) }
 	nm := 0
 	bad := ""
 	// the presence loop (it may run zero times: an empty range needs no journal): its header dominates every mutation
@@ -1495,7 +1493,7 @@ func (c *Ctx) c12HeadAndRefusal() {
 	}
 	r.Check(bad == "", "R12.11", "RollbackState: journals of the range checked before the first mutation", c.P.Pos(rs.Pos()), "a loop of ldb.Has(journal key) precedes the purge and every batch",
 		bad+": a journal missing inside the range is noticed only after the heights above it were reverted and committed - the error is returned with the store at an intermediate height (journals above deleted, max marker lowered) while maxJnlHeight and prevJnlHash still describe the head")
-	r.Floor("R12.11", "mutations in RollbackState (purge, batches)", nm, 3)
+	r.Floor("R12.11", "mutations in RollbackState (purge, batches)", nm, 2)
 }
 
 // ---------------------------------------------------------------------------------------------------------------------
